@@ -25,7 +25,7 @@ ASSUMPTIONS = ['CachedMethods compatibility shim',
                'the compiled matcher is the .pyx source executed by pyxsan (source semantics, not a compiled binary)',
                'molecules are labelled (calc_labels) and have defined hydrogen counts unless a case says otherwise']
 CONFIG = {
-    'quick': {'shards': 16, 'budget_s': 200, 'n_mols': 900, 'n_cut': 8, 'n_table_pairs': 20000,
+    'quick': {'shards': 16, 'budget_s': 300, 'n_mols': 900, 'n_cut': 8, 'n_table_pairs': 20000,
               'floors': {'evaluations': 3000, 'distinct_nontrivial': 500, 'pairs.compared': 3000, 'pairs.with-matches': 600,
                          'layout.elements': 118, 'layout.ring-sizes': 40, 'pyxsan.loads': 200000,
                          'queries.rings-with-coordinate-bonds': 120, 'queries.ring-closures-on-cages': 400}},
